@@ -100,6 +100,19 @@ fn verif_native_lexer_token_witness() {
             bad.push(format!("{:?}: third token {:?}, expected the dot token", text, toks.get(2)));
         }
     }
+    // peculiar identifiers (R7RS 7.1.1) and identifiers with digits are single identifier tokens
+    for id in ["+", "-", "...", "+a", "-a1", "->x2", "->utf8", "+a1+", "--1", "+@1", "a1", "x->y2", "!5", "<=?", "a.b1"] {
+        for (pre, post) in [("", ""), ("(", ")"), (" ", "\n"), ("'", " ;c")] {
+            let text = format!("{}{}{}", pre, id, post);
+            n += 1;
+            let toks = lex(&text);
+            let want_at = if pre == "(" || pre == "'" { 1 } else { 0 };
+            match toks.get(want_at) {
+                Some(Ok((TokenData::Identifier(name), _))) if name == id => {}
+                other => if bad.len() < 4 { bad.push(format!("{:?}: token {} is {:?}, expected the identifier {:?}", text, want_at, other, id)); },
+            }
+        }
+    }
     // string literals: every character stands for itself, the mnemonic escapes for the characters R7RS assigns
     let escapes: [(char, char); 8] = [('a', '\u{7}'), ('b', '\u{8}'), ('t', '\u{9}'), ('n', '\n'), ('r', '\r'), ('"', '"'), ('\\', '\\'), ('|', '|')];
     for (e, want) in escapes.iter() {
@@ -135,5 +148,20 @@ fn verif_native_hash_token_known() {
         println!("VERIF-NATIVE: disagree \"#t1\" -> {} tokens, \"#\\ab\" -> {} tokens (each should be one token or an error)", toks.len(), chars.len());
     } else {
         println!("VERIF-NATIVE: ok #t1 and #\\ab are no longer split into two tokens");
+    }
+}
+
+#[test]
+fn verif_native_sign_dot_known() {
+    // KNOWN FINDING sign-dot-identifier-rejected: R7RS reads +.a and -.x as peculiar identifiers; this lexer commits to a
+    // number as soon as a sign is followed by a dot (one character of look-ahead) and then rejects the letter
+    let a = lex("+.a");
+    let b = lex("(-.x 1)");
+    let ok_a = matches!(a.first(), Some(Ok((TokenData::Identifier(n), _))) if n == "+.a");
+    let ok_b = matches!(b.get(1), Some(Ok((TokenData::Identifier(n), _))) if n == "-.x");
+    if ok_a && ok_b {
+        println!("VERIF-NATIVE: ok +.a and -.x are read as identifiers");
+    } else {
+        println!("VERIF-NATIVE: disagree \"+.a\" -> {:?}, \"(-.x 1)\" -> {:?} (each should contain the identifier)", a.first(), b.get(1));
     }
 }
